@@ -133,6 +133,10 @@ class Circuit:
                     "be converted to a unitary matrix."
                 )
 
+        if not lifted_matrices:
+            # Empty product: a circuit without operations acts as identity.
+            return np.eye(2**self.n_qubits)
+
         return reduce(operator.matmul, lifted_matrices)
 
     def bind(self, symbols_map: Dict[sympy.Symbol, Any]):
